@@ -134,6 +134,55 @@ fn check_set(seed: u64, idx: u64, k: usize, rep: &mut Report) {
     // repetition
     let again = key_of(&base_src, &cfg);
     record("repeat", &base_src, &again, rep);
+    // history: this worker thread has compiled many other generated sets before (same definition names Tq1, nq3, vq7 ..
+    // with other contents); a thread that has never compiled anything must produce the same result
+    {
+        let (srcs, c2) = (base_src.clone(), cfg.clone());
+        if let Ok(fresh) = std::thread::Builder::new().stack_size(256 << 20).spawn(move || key_of(&srcs, &c2)).map(|h| h.join()) {
+            match fresh {
+                Ok(fresh) => record("history(fresh-thread-vs-worker-history)", &base_src, &fresh, rep),
+                Err(_) => rep.count("fresh_thread_panicked(C08's subject)", 1),
+            }
+        }
+    }
+    // history with homonyms: a module pair defining the same names with other numbers is compiled first on a new thread
+    if idx % 4 == 0 {
+        let k1 = 2 + rng.below(40) as i64;
+        let k2 = k1 + 1 + rng.below(40) as i64;
+        let twin = |k: i64| -> String {
+            format!(
+                "Hq1 DEFINITIONS AUTOMATIC TAGS ::= BEGIN\nVersion ::= INTEGER {{ v1(0), v3({k}) }}\nColour ::= ENUMERATED {{ red({k}), green({}) }}\nlimit INTEGER ::= {}\nTq1 ::= Version (0..v3)\nTq2 ::= SEQUENCE {{ a Version DEFAULT v3, b Colour DEFAULT red, c INTEGER (0..limit) DEFAULT limit }}\nTq3 ::= {} (FROM (\"0\"..\"9\") ^ SIZE (1..{k}))\nEND\n",
+                k + 1,
+                k * 3,
+                if k % 2 == 0 { "NumericString" } else { "IA5String" }
+            )
+        };
+        let (p1, p2) = (vec![twin(k1)], vec![twin(k2)]);
+        let alone = {
+            let (s, c) = (p2.clone(), cfg.clone());
+            std::thread::Builder::new().stack_size(64 << 20).spawn(move || key_of(&s, &c)).ok().and_then(|h| h.join().ok())
+        };
+        let after = {
+            let (a, b, c) = (p1.clone(), p2.clone(), cfg.clone());
+            std::thread::Builder::new().stack_size(64 << 20).spawn(move || {
+                let _ = key_of(&a, &c);
+                key_of(&b, &c)
+            }).ok().and_then(|h| h.join().ok())
+        };
+        if let (Some(alone), Some(after)) = (alone, after) {
+            rep.evaluations += 3;
+            rep.count("compared[history]", 1);
+            rep.count("compared[history-homonyms]", 1);
+            rep.nontrivial.insert(hash_str(&format!("homonyms|{k1}|{k2}")));
+            if let Some(d) = diff_kind(&alone, &after) {
+                rep.violations.push(Violation {
+                    sig: format!("c11|history-homonyms|{d}"),
+                    what: format!("a module compiled after a same-named module with other numbers differs from the module compiled alone: {d}: {}", first_diff(&alone.generated, &after.generated)),
+                    replay: json!({"baseline_sources": p2, "variant_sources": p2, "preceded_by": p1, "relation": "history-homonyms"}),
+                });
+            }
+        }
+    }
     // assignments permuted inside modules
     for (rel, s) in permuted_assignments(&set, &mut rng, k) {
         let srcs = vec![s.render().text];
